@@ -220,14 +220,14 @@ PROPS = {
         "assumptions": RUN_ASSUME + ["cancelled runs are only required to return (their result is C06's subject)"],
     },
     "C09": {
-        "test": "TestC09", "binary": "sched", "level": "exploration", "enumerative": True, "exhaustive_in": "thorough",
+        "test": "TestC09", "binary": "sched", "level": "exploration", "enumerative": True, "exhaustive_in": "both",
         "rule": "(1) single-site sweep: for every schedule point the instrumenter inserts into workflow.go and the two providers (lock, unlock, "
                 "channel send / receive, select and wake-up, wait-group, cancel, goroutine start, entry of every run-loop / running-step method; "
                 "~285 sites) a delay longer than the fallback detector's 3 x 10 ms window - 60 ms on the first 3 passes, 60 ms on the last pass (sites "
                 "passed more than 3 times) and 40 ms on every pass (4-12 passes); pairs whose motif never passes the site are skipped - on each of 14 canonical "
                 "workflows whose meaning fixes one result (single, chain, wait_for, enabled from upstream, deploy expression, diamond, failing "
                 "prerequisite, crash, deploy failure, disabled + or-disabled, one-of consumer, wait-optional with failing source, foreach, nested "
-                "foreach); quick = a VERIF_SEED-chosen quarter of the sites, thorough = all (exhaustive). (2) rapid: random deterministic "
+                "foreach); both tiers visit all sites (exhaustive over sites x motifs x delay variants); the tiers differ in the number of random plans. (2) rapid: random deterministic "
                 "single-output programs under random plans of 1-6 sites with 1-40 ms delays. oracle: the result equals the reference (in "
                 "particular never 'no steps running' when the result is producible). non-trivial = the planned site was hit in the run; distinct "
                 "= FNV-64 of (program, plan)",
